@@ -163,7 +163,7 @@ fn eval_one(n: &Node, docs: &[&MDoc], all_terms: &dyn Fn(Fd) -> Vec<i64>, sem: S
             let g = group(docs, sem, |d| d[field.id()].iter().map(|&v| idx(v)).collect());
             SR::List((0..=cuts.len() as i64).map(|k| match g.get(&k) { Some(ids) => (k, ids.len() as u64, sub(ids)), None => (k, 0, sub(&vec![])) }).collect(), absent)
         }
-        Agg::Composite { sources, size } => {
+        Agg::Composite { sources, size, after } => {
             let mut m: BTreeMap<Vec<i64>, Vec<usize>> = BTreeMap::new();
             for (i, d) in docs.iter().enumerate() {
                 let per: Vec<Vec<i64>> = sources.iter().map(|s| csrc_vals(s, d, sem.per_value)).collect();
@@ -182,6 +182,16 @@ fn eval_one(n: &Node, docs: &[&MDoc], all_terms: &dyn Fn(Fd) -> Vec<i64>, sem: S
                 }
                 std::cmp::Ordering::Equal
             });
+            if let Some(a) = after {
+                // strictly after the given key in composite-key order
+                all.retain(|b| {
+                    for (i, s) in sources.iter().enumerate() {
+                        let c = if s.desc { a[i].cmp(&b.0[i]) } else { b.0[i].cmp(&a[i]) };
+                        if c != std::cmp::Ordering::Equal { return c == std::cmp::Ordering::Greater; }
+                    }
+                    false
+                });
+            }
             SR::Comp { name: n.name.clone(), sources: sources.clone(), all, size: *size as usize }
         }
         Agg::Filter { field, code } => {
